@@ -11,6 +11,12 @@ fn main() {
             "--type-mod" => { settings.with_type_mod(&args[i + 1]); }
             "--derive" => { settings.with_derive(args[i + 1].clone()); }
             "--patch" => { let (a, b) = args[i + 1].split_once('=').unwrap(); settings.with_patch(a, TypeSpacePatch::default().with_rename(b)); }
+            "--crate" => { // name=rename  (version *): settings.with_crate(name, Any, Some(rename))
+                let (a, b) = args[i + 1].split_once('=').unwrap();
+                settings.with_crate(a, typify_impl::CrateVers::Any, Some(&b.to_string())); }
+            "--convert" => { // every {"type":"string","format":"conv"} schema is converted to the named type
+                let so: schemars::schema::SchemaObject = serde_json::from_value(serde_json::json!({"type":"string","format":"conv"})).unwrap();
+                settings.with_conversion(so, &args[i + 1], [].into_iter()); }
             "--replace" => { let (a, b) = args[i + 1].split_once('=').unwrap(); settings.with_replacement(a, b, [].into_iter()); }
             _ => {}
         }
